@@ -211,7 +211,7 @@ class Harness:
         self.instance = instance          # generator descriptor (for samples)
 
 
-_RE_CHECK = re.compile(r"^Check (\d+): (\S+)\n\t - Status: (\w+)\n\t - Description: \"(.*)\"\n\t - Location: (.*)$", re.M)
+_RE_CHECK = re.compile(r"^Check (\d+): (.+)\n\t - Status: (\w+)\n\t - Description: \"(.*)\"\n\t - Location: (.*)$", re.M)
 
 
 def parse_kani_output(out):
@@ -261,6 +261,13 @@ def classify(h, rc, out, timed_out):
     if p["summary"] is None or p["summary"][2] != "1":
         tail = out.strip().split("\n")[-15:]
         return "inconclusive", p, "no single-harness summary (rc=%s): %s" % (rc, " | ".join(tail)[-300:])
+    if p["verdict"] == "SUCCESSFUL" and getattr(h, "should_panic", False):
+        # #[kani::should_panic]: Kani reports SUCCESSFUL only if a panic occurred; every failed check must be a
+        # plain assertion/panic (not a pointer/bounds/memory check)
+        bad = [c for c in p["failed_checks"] if ".assertion." not in c["check"]]
+        if bad or not p["failed_checks"] or "tool error" in p["errors"]:
+            return "inconclusive", p, "should_panic harness: unexpected failed checks %s" % [c["description"] for c in bad][:3]
+        return "pass", p, ""
     if p["verdict"] == "SUCCESSFUL":
         if p["errors"]:
             return "inconclusive", p, "errors in output: %s" % p["errors"]
@@ -310,8 +317,10 @@ class KaniRunner:
 
     def _run_one(self, h, target, playback_print=False):
         logf = os.path.join(self.logs, "%s%s.log" % (h.name, ".cex" if playback_print else ""))
+        # the counterexample run makes kani-driver parse CBMC's full JSON trace: give it room
+        mem = max(h.mem_gb or 0, 40) if playback_print else h.mem_gb
         rc, out, wall, to = run_capped(self._cmd(h, target, playback_print), self.crate_dir, kani_env(),
-                                       h.timeout, h.mem_gb, logf)
+                                       h.timeout * (2 if playback_print else 1), mem, logf)
         status, parsed, why = classify(h, rc, out, to)
         return {"harness": h, "status": status, "parsed": parsed, "why": why, "wall_s": round(wall, 1),
                 "log": logf, "out": out}
@@ -386,6 +395,9 @@ def playback(scratch, crate_dir, harness_file, test_text, release, package_args=
     rc, out, wall, to = run_capped(cmd, crate_dir, kani_env(), timeout, None,
                                    os.path.join(scratch.dir, "logs", "playback_%s_%s.log" % (mname[-12:], "rel" if release else "dev")))
     reproduced = (not to) and re.search(r"test result: FAILED\. 0 passed; 1 failed", out) is not None
+    if "Not enough det vals found" in out or "concrete_playback.rs" in out.split("panicked at")[-1][:200]:
+        # the playback machinery itself failed (no complete concrete assignment): not a reproduction
+        reproduced = False
     ran = re.search(r"test result: (ok|FAILED)\. (\d+) passed; (\d+) failed", out)
     passed = (not to) and ran is not None and ran.group(1) == "ok" and ran.group(2) == "1"
     panic = re.search(r"panicked at (.*?):\n(.*)", out)
